@@ -187,7 +187,8 @@ def sinkProp : MProp where
   setGlobalM := SinkOk.setGlobalM
   setIndexM := SinkOk.setIndexM
   capture := SinkOk.capture
-  inFrames := SinkOk.inFrames
+  inPlain := fun d => SinkOk.inFrames [.plain d]
+  inSandbox := fun root => SinkOk.inFrames [.global [], .sandbox root {}]
 
 /-- **Every template is sink-uniform.** -/
 theorem renderT_sinkOk (env : Env) (fuel : Nat) (t : Tmpl) : SinkOk (renderT fuel env t) :=
